@@ -1803,7 +1803,7 @@ func scriptFor(arb bool) []scriptStep {
 func run(args []string) error {
 	f := ParseFlags("c01", args)
 	logging.Disable()
-	n := f.Budget(16, 300)
+	n := f.Budget(12, 300)
 	r := NewRng(f.Seed)
 	o := NewOut()
 	hist := Hist{}
